@@ -2,6 +2,7 @@ import S2T.Lemmas.Archive
 import S2T.Gen.Router
 import S2T.Gen.Archive
 import S2T.Props.C09_Src
+import S2T.Props.C09_Filter
 /-!
 # C09 — Archive processing is confined: no host file is read or written
 
@@ -17,6 +18,9 @@ The theorems below are about the model `S2T.Archive` of the REPAIRED source (pat
 `fix-7z-readback-confined`, `fix-nested-archive-skip-from-router`).  On the unrepaired source the
 statement is false in two ways; the `…Old` functions model that source and the two `…_old_…`
 counterexample theorems exhibit the failures (replayed on the real code by the harness).
+
+Part files: `C09_Src` (translated `_safe_join` / `_should_skip_file` = hand model), `C09_Filter` (the filters cannot be
+by-passed: TAR member-kind guard, 7z selection by identity, private directory and results by content).
 
 Quantifiers: every base directory that is absolute and in normal form (what `mkdtemp` returns), every
 cwd, every member name, every header (entries, sizes, folders, decoded folder bytes), every consumer,
